@@ -256,6 +256,9 @@ class _ReadSourceGenerator:
             field_type = field_type.type
 
         if issubclass(field_type, Char):
+            # Read the storage unit through the char type itself (it's never shared with a neighbouring uint8 unit),
+            # but construct the value as an uint8
+            read_type = lookup
             field_type = field_type.cs.uint8
             lookup = "cls.cs.uint8"
 
